@@ -386,3 +386,16 @@ func Referrers(v ssa.Value) []ssa.Instruction {
 	}
 	return out
 }
+
+// NamedConstInt returns the value of the package-level integer constant pkg.name.
+func (p *Prog) NamedConstInt(pkg, name string) (int64, bool) {
+	sp := p.SPkgs[pkg]
+	if sp == nil {
+		return 0, false
+	}
+	nc, ok := sp.Members[name].(*ssa.NamedConst)
+	if !ok || nc.Value == nil {
+		return 0, false
+	}
+	return ConstInt(nc.Value)
+}
